@@ -93,6 +93,12 @@ pub const CONTEXTS: &[Ctx1] = &[
     cx!("(unless • (p K))"),
     cx!("(if • (p K))"),
     cx!("(begin (set! g •) g)"),
+    // a compound key before a clause with =>: the key is evaluated once
+    cx!("(case (car (list •)) ((11 12 13 14 15 16 17 18 19 20 21 22 23 24 25 26 27 28 29 30 31 32 33 34 35 36 37 38 39 40) => (lambda (x) (list 'c x))) ((s) 'sym) (else => (lambda (x) (list 'e x))))", &[]),
+    // conditionals whose other arm is a derived form (a call of a fresh closure in tail position)
+    cx!("(if #t • (let () K))"),
+    cx!("(if #f (begin (p K) K) •)"),
+    cx!("(if • (let ((v2 K)) v2) (cond (#f K) (else K)))"),
     // closures created by the iterations of a procedure that tail-calls itself each see their own iteration's variables
     cx!("((lambda () (define (lp i acc) (if (= i 2) acc (lp (+ i 1) (cons (lambda () (list i •)) acc)))) (map (lambda (t) (t)) (lp 0 '()))))", &[("lp", Kind::Proc), ("acc", Kind::List), ("i", Kind::Int)]),
 ];
@@ -185,7 +191,11 @@ pub fn chain_program_n(mut i: u64, depth: u32, nctx: usize) -> Option<String> {
     for c in ctxs.iter().rev() {
         text = c.tmpl.replace('•', &text);
     }
-    // number the K's
+    Some(number_ks(&text))
+}
+
+/// Replace every stand-alone K by a program-unique integer (11, 12, ...).
+pub fn number_ks(text: &str) -> String {
     let mut out = String::new();
     let mut k = 0;
     let chars: Vec<char> = text.chars().collect();
@@ -202,7 +212,7 @@ pub fn chain_program_n(mut i: u64, depth: u32, nctx: usize) -> Option<String> {
         }
         j += 1;
     }
-    Some(out)
+    out
 }
 
 pub struct Pair1 {
@@ -245,7 +255,13 @@ fn busy_impl() -> Impl {
     for i in 0..40 {
         let _ = im.eval_text(&format!("(define uu{} (list {} 'a \"b\"))", i, i));
     }
-    im.vm.verif_collect_now();
+    {
+        // the audit attached to every collection panics on a broken heap invariant: that is the subject's failure
+        let vm = &mut im.vm;
+        if std::panic::catch_unwind(std::panic::AssertUnwindSafe(|| vm.verif_collect_now())).is_err() {
+            uncaught_panic();
+        }
+    }
     for f in parse_forms(PREAMBLE).unwrap() {
         let _ = im.eval(&f);
     }
@@ -582,12 +598,50 @@ pub fn run(ctx: &Ctx) -> i32 {
             }
         }
     }
+    // E. conditional trees: every tree of `if` forms of depth <= 2 over five kinds of leaves and constant tests,
+    // as a top-level form (tail position), as an operand and as the body of a called procedure
+    {
+        let leaves = ["K", "(p K)", "(let () K)", "(begin (p K) K)", "(gid K)"];
+        let mut level: Vec<String> = leaves.iter().map(|s| s.to_string()).collect();
+        let mut trees: Vec<String> = level.clone();
+        for _ in 0..2 {
+            let mut next = vec![];
+            for t in ["#t", "#f"] {
+                for a in &level {
+                    for b in &level {
+                        next.push(format!("(if {} {} {})", t, a, b));
+                    }
+                    next.push(format!("(if {} {})", t, a));
+                }
+            }
+            trees.extend(next.iter().cloned());
+            level.extend(next);
+        }
+        let programs: Vec<String> = trees
+            .iter()
+            .flat_map(|t| vec![t.clone(), format!("(list (p K) {} (p K))", t), format!("((lambda (v) {}) K)", t)])
+            .map(|t| number_ks(&t))
+            .collect();
+        let n = programs.len() as u64;
+        let a = par_fold(
+            n,
+            64,
+            || St { pair: None, busy: None, busy_used: 0 },
+            |st, acc, i| {
+                run_chain(st, acc, &programs[i as usize], 9, i, false, false);
+            },
+            Acc::merge,
+            acc_zero,
+        );
+        acc.count("conditional_tree_programs", n);
+        acc = Acc::merge(acc, a);
+    }
     let val = crate::pinned::validate_model();
     rep.states = Some(acc.evals);
     rep.transitions = Some(acc.evals * 3);
     rep.traces_validated = Some(acc.nontrivial + val.forms_agreeing);
     rep.rule = format!(
-        "A. every chain of <= {} one-hole contexts ({} contexts, the 18 extended ones - nested quasiquote, case =>, multi-expression cond clause, multi-list map / for-each, let with internal define, empty let*, a promise forced twice, apply of map, accumulating named let, and / or / when / unless / one-armed if with the hole as a non-final operand or test, set! of a global - only below the maximal depth: operand positions, fixed/variadic/rest lambdas, apply, let/let*/letrec/named let, begin, if, cond (else, =>, test-only), case (clause, key, else =>), and/or/when/unless, quasiquote (list, vector, nested, cdr), delay/force, internal defines, set!, map/for-each callbacks, call/cc (return, escape), returned closure, constructors, global procedure, eval) around each of {} leaves (constants of every data kind, innermost/outer local, global, set!-then-read of local/global, immediate closure, let rebinding, quasiquote templates over a local, fixed/variadic/apply calls of globals, a logging call, five failures) = {} programs, each run as the session (define g 100); program; g on the real VM and on the reference CEK machine and compared form by form (value or failure, display/write output); B. every sequence of <= {} of the {} top-level forms over globals g h f (definitions, redefinitions, set!, late-bound procedure bodies, calls) = {} sessions, renamed apart inside a shared VM and (length <= 3) verbatim in a fresh VM; D. twelve programs whose variables are spelled like the temporaries (var1, temp, atom-key) and free identifiers (not, memv, make-promise, begin) of the prelude's derived-form macros, with controls; C. every chain program of depth <= 2 also runs in a VM that first evaluated 60 unrelated globals, 5 macros, garbage and a collection, and (all of depth <= 1, every {}th of depth 2) twice in fresh VMs; all observations must be equal. Non-trivial = a program or session on which model and implementation agreed on every form (programs the model excludes - R7RS prescribes no outcome - are counted separately).",
+        "A. every chain of <= {} one-hole contexts ({} contexts, the 22 extended ones - nested quasiquote, case =>, multi-expression cond clause, multi-list map / for-each, let with internal define, empty let*, a promise forced twice, apply of map, accumulating named let, and / or / when / unless / one-armed if with the hole as a non-final operand or test, set! of a global - only below the maximal depth: operand positions, fixed/variadic/rest lambdas, apply, let/let*/letrec/named let, begin, if, cond (else, =>, test-only), case (clause, key, else =>), and/or/when/unless, quasiquote (list, vector, nested, cdr), delay/force, internal defines, set!, map/for-each callbacks, call/cc (return, escape), returned closure, constructors, global procedure, eval) around each of {} leaves (constants of every data kind, innermost/outer local, global, set!-then-read of local/global, immediate closure, let rebinding, quasiquote templates over a local, fixed/variadic/apply calls of globals, a logging call, five failures) = {} programs, each run as the session (define g 100); program; g on the real VM and on the reference CEK machine and compared form by form (value or failure, display/write output); B. every sequence of <= {} of the {} top-level forms over globals g h f (definitions, redefinitions, set!, late-bound procedure bodies, calls) = {} sessions, renamed apart inside a shared VM and (length <= 3) verbatim in a fresh VM; E. every tree of if forms of depth <= 2 (one- and two-armed, constant tests, five kinds of leaves incl. let and begin bodies) as a top-level form, as an operand and as a procedure body; D. twelve programs whose variables are spelled like the temporaries (var1, temp, atom-key) and free identifiers (not, memv, make-promise, begin) of the prelude's derived-form macros, with controls; C. every chain program of depth <= 2 also runs in a VM that first evaluated 60 unrelated globals, 5 macros, garbage and a collection, and (all of depth <= 1, every {}th of depth 2) twice in fresh VMs; all observations must be equal. Non-trivial = a program or session on which model and implementation agreed on every form (programs the model excludes - R7RS prescribes no outcome - are counted separately).",
         max_depth, CONTEXTS.len(), LEAVES.len(), programs, max_len, SESSION_FORMS.len(), sessions, ctx.tier.pick(11, 1)
     );
     rep.extra("chain_programs_enumerated", json!(programs));
